@@ -220,6 +220,24 @@ fn unary_depth(f: &fol::Formula) -> usize {
         F::BinaryFormula { lhs, rhs, .. } => unary_depth(lhs).max(unary_depth(rhs)),
     }
 }
+/// ... and the printer MODEL needs time exponential in the depth of parenthesised right operands
+/// (`a and (b and (c and ..))`; a minute at depth 20)
+const MODEL_RHS_DEPTH: usize = 8;
+fn rhs_depth(f: &fol::Formula) -> usize {
+    use fol::Formula as F;
+    match f {
+        F::AtomicFormula(_) => 0,
+        F::UnaryFormula { formula, .. } => rhs_depth(formula),
+        F::QuantifiedFormula { formula, .. } => rhs_depth(formula),
+        F::BinaryFormula { lhs, rhs, .. } => {
+            let r = if matches!(**rhs, F::BinaryFormula { .. }) { 1 + rhs_depth(rhs) } else { rhs_depth(rhs) };
+            rhs_depth(lhs).max(r)
+        }
+    }
+}
+fn model_friendly(f: &fol::Formula) -> bool {
+    unary_depth(f) <= MODEL_DEPTH && rhs_depth(f) <= MODEL_RHS_DEPTH
+}
 /// one or two formulas on which the fixpoint loop needs a dozen passes and more, within MODEL_DEPTH
 fn deep_text(rng: &mut Rng) -> String {
     use crate::ext::clsterm;
@@ -241,7 +259,7 @@ fn deep_text(rng: &mut Rng) -> String {
                         clsterm::fam_taustar(rng, n)
                     }
                 };
-                if unary_depth(&f) <= MODEL_DEPTH && clsterm::tame(&f) {
+                if model_friendly(&f) && clsterm::tame(&f) {
                     return f;
                 }
             }
@@ -264,7 +282,7 @@ fn redex_rich(rng: &mut Rng) -> fol::Formula {
         7 => {
             for _ in 0..20 {
                 let f = crate::ext::clsterm::tame_case(rng);
-                if unary_depth(&f) <= MODEL_DEPTH {
+                if model_friendly(&f) {
                     return f;
                 }
             }
